@@ -90,20 +90,22 @@ class BigTtlTriplesYielder(BaseTriplesYielder):
         """Remove comments in the middle of the line.
         Lines starting with # wont be erased
         """
-        if '"' not in str_line:  # Comment mark and no literals, trivial case
-            return str_line[:str_line.find(" #")]
-        # We need to find the begining and end of the literal to avoid erasing
-        # comments within literals (actual content)
-        quotes_indexes = []
-        count_down_quotes = 2
-        for a_match in _QUOTES_FOR_LITERALS.finditer(str_line):
-            quotes_indexes.append(a_match.start(0))
-            count_down_quotes -= 1
-            if count_down_quotes == 0:
-                break
-        for a_match in _INIT_INLINE_COMMENT.finditer(str_line):
-            if a_match.start(0) < quotes_indexes[0] or a_match.start(0) > quotes_indexes[1]:
-                return str_line[:a_match.start(0)]
+        # A comment starts at the first " #" which is not content of a string literal. A line may contain
+        # several literals, so every char is checked knowing whether a literal is open at that point.
+        in_literal = False
+        index = 0
+        while index < len(str_line):
+            a_char = str_line[index]
+            if in_literal:
+                if a_char == "\\":  # escape sequence: the next char cannot close the literal
+                    index += 1
+                elif a_char == '"':
+                    in_literal = False
+            elif a_char == '"':
+                in_literal = True
+            elif a_char == " " and str_line[index + 1:index + 2] == "#":
+                return str_line[:index]
+            index += 1
         return str_line  # If this point is reached, it means that the potential comments
                          # are actual content of a string literal
 
